@@ -1049,7 +1049,7 @@ class C11(Property):
         self.whole_view = got != exp
 
     def cases(self, rng, tier):
-        n = 80 if tier == 'quick' else 2000
+        n = 60 if tier == 'quick' else 2000
         for k in range(n):
             force = {}
             if k % 10 == 0:
@@ -1176,6 +1176,17 @@ class C11(Property):
         if self.invalid(impl):
             return b + ['invalid_case']
         b.append('do_has_repeated=%s' % do_has_repeated(case))
+        allp = do_positions(case)
+        if any(len(set(pos)) < len(pos) for _, pos in allp):
+            b.append('duplicates_within_a_subjac')     # np.add.at branch
+        seen = set()
+        across = False
+        for _, pos in allp:
+            if seen & set(pos):
+                across = True
+            seen |= set(pos)
+        if across:
+            b.append('duplicates_across_subjacs')
         subs, n_out, n_in = case_subjacs(case)
         if any(s['block'] == 'di' for s in subs):
             b.append('has_dr_di')
